@@ -568,6 +568,8 @@ class Model:
 
     # -- core -------------------------------------------------------------------------
     def des(self, t: dict, d: Any, c: Optional[dict] = None) -> Tuple[Any, Optional[Err]]:
+        if t["k"] == "tvar":  # a generic class used without arguments: its type variables stand for Any
+            t = {"k": "any"}
         k = t["k"]
         if d.__class__ not in JSON_NAMES:
             raise Unspecified("non-JSON datum")
@@ -953,6 +955,8 @@ def specialize(cd: dict, args: List[dict]) -> dict:
 
     cd2 = dict(cd)
     cd2["fields"] = [dict(f, t=rec(f["t"])) for f in cd["fields"]]
+    if cd.get("methods"):
+        cd2["methods"] = [dict(m, ret=rec(m["ret"])) for m in cd["methods"]]
     return cd2
 
 
@@ -1055,7 +1059,7 @@ def class_matches(prog: dict, t: dict, v) -> bool:
     while t0["k"] in ("ann", "newtype"):
         t0 = t0["of"] if t0["k"] == "ann" else prog["newtypes"][t0["i"]]["of"]
     k, tag = t0["k"], v[0]
-    if k == "any":
+    if k in ("any", "tvar"):
         return True
     if k == "std":
         return tag == "std" and v[1] == t0["t"]
@@ -1108,6 +1112,8 @@ def _flavor(prog, name):
 
 def _ser(self, t: dict, v, top=False):
     """-> JSON image.  Raises Mismatch when v is not a value of t."""
+    if t["k"] == "tvar":
+        t = {"k": "any"}
     k, tag = t["k"], v[0]
     prog = self.prog
     if k == "any":
@@ -1361,6 +1367,8 @@ def conforms(prog: dict, t: dict, v, c: Optional[dict] = None, depth: int = 0) -
     values inside the domain "value v of T" of the serialization properties.)"""
     if depth > 40:
         return True
+    if t["k"] == "tvar":
+        t = {"k": "any"}
     k, tag = t["k"], v[0]
     if k == "ann":
         if t.get("val") and LEAF_VALIDATORS[t["val"]][0](v):
